@@ -6,7 +6,7 @@ from .. import gen, model, spec
 from ..common import eqstar, plain, weighted
 
 PLAN = {
-    "quick": {"shards": 8, "cases": 700, "min_nontrivial": 3000, "budget_s": 240},
+    "quick": {"shards": 8, "cases": 2000, "min_nontrivial": 8000, "budget_s": 300},
     "thorough": {"shards": 16, "cases": 12000, "min_nontrivial": 80000, "budget_s": 1500},
 }
 RULE = ("a case is a typed list or dict field (item/key/value families with concrete normal forms, including "
